@@ -66,6 +66,7 @@ class Result:
         self.paths = 0
         self.ok_paths = 0
         self.unknown_paths = 0
+        self.fail_paths = 0
         self.ignored_paths = 0
         self.tags = {}
         self.failures = []  # [(failure text, {arg name: python value})], one per distinct signature
@@ -146,10 +147,13 @@ def explore(fn, timeout_s=120.0, per_path_timeout=40.0, required_tags=(), stop_o
                         res.ok_paths += 1
                         res.tags[ret[3:]] = res.tags.get(ret[3:], 0) + 1
                     else:
-                        with ResumedTracing():
-                            space.detach_path()
-                        cex = deep_realize(dict(pre_args.arguments))
-                        fail = [repr(ret), cex]
+                        if _sig(repr(ret)) in seen_sigs:
+                            fail = [repr(ret), None]   # same signature as an earlier path: no need for a second model
+                        else:
+                            with ResumedTracing():
+                                space.detach_path()
+                            cex = deep_realize(dict(pre_args.arguments))
+                            fail = [repr(ret), cex]
                         status = VerificationStatus.REFUTED
             except IgnoreAttempt:
                 status = None
@@ -162,7 +166,8 @@ def explore(fn, timeout_s=120.0, per_path_timeout=40.0, required_tags=(), stop_o
             _analysis, exhausted = space.bubble_status(CallAnalysis(status))
         if fail is not None:
             sg = _sig(fail[0])
-            if sg not in seen_sigs:
+            res.fail_paths += 1
+            if sg not in seen_sigs and fail[1] is not None:
                 seen_sigs.add(sg)
                 res.failures.append(fail)
             if stop_on_fail or len(seen_sigs) >= max_fail_sigs:
